@@ -167,6 +167,41 @@ func c07Walk(path string) walkRes {
 		c07Guard(&r, func() error { _, err := d.Read(); return err })
 		c07Guard(&r, func() error { _, err := d.ReadStrings(); return err })
 		c07Guard(&r, func() error { _, err := d.ReadCompound(); return err })
+		// partial reads and the chunk iterator: separate code paths through layout, chunk index and filters
+		var dims []uint64
+		c07Guard(&r, func() error {
+			info, err := d.VerifInfo()
+			if err == nil && info != nil && info.Dataspace != nil && len(info.Dataspace.Dimensions) <= 8 {
+				dims = info.Dataspace.Dimensions
+			}
+			return err
+		})
+		if len(dims) > 0 {
+			start, count, stride, block := make([]uint64, len(dims)), make([]uint64, len(dims)), make([]uint64, len(dims)), make([]uint64, len(dims))
+			for k, n := range dims {
+				count[k], stride[k], block[k] = 2, 2, 1
+				if n < 3 {
+					count[k], stride[k] = 1, 1
+				}
+			}
+			c07Guard(&r, func() error { _, err := d.ReadSlice(start, count); return err })
+			c07Guard(&r, func() error {
+				_, err := d.ReadHyperslab(&hdf5.HyperslabSelection{Start: start, Count: count, Stride: stride, Block: block})
+				return err
+			})
+		}
+		c07Guard(&r, func() error {
+			it, err := d.ChunkIterator()
+			if err != nil {
+				return err
+			}
+			for n := 0; n < 64 && it.Next(); n++ {
+				if _, err := it.Chunk(); err != nil {
+					return err
+				}
+			}
+			return it.Err()
+		})
 		attrs(func() ([]*attrPtr, error) { return d.Attributes() })
 	}
 	return r
